@@ -1159,6 +1159,32 @@ fn huge_cases() -> Vec<(Doc, Vec<String>)> {
         obj(vec![("items".to_string(), arr((0..65_536).collect()))]),
         vec!["/items/-/id".to_string(), "/items/65536/id".to_string(), "/items/-".to_string(), "/items/65535".to_string(), "/items/65536".to_string(), "/items/65537/x".to_string()],
     ));
+    // tails of EVERY length materialised below a missing member, an array end or a scalar (expand loops, inline buffers, small tables):
+    // keys only, keys mixed with "0" / "-" tokens, escaped keys
+    let tail = |l: usize, every: usize| -> String {
+        (0..l)
+            .map(|i| {
+                if every > 0 && i % every == every - 1 {
+                    if i % 2 == 0 { "/0".to_string() } else { "/-".to_string() }
+                } else if i % 7 == 5 {
+                    format!("/t~1{i}")
+                } else {
+                    format!("/t{i}")
+                }
+            })
+            .collect()
+    };
+    let mut tails = vec![];
+    for l in (1..=20).chain([31, 32, 33, 63, 64, 65]) {
+        tails.push(tail(l, 0));
+        tails.push(tail(l, 3));
+        tails.push(format!("/a{}", tail(l, 0)));
+        tails.push(format!("/a/-{}", tail(l, 2)));
+        tails.push(format!("/n{}", tail(l, 4)));
+    }
+    v.push((obj(vec![("a".to_string(), arr(vec![])), ("n".to_string(), Doc::Int(5))]), tails.clone()));
+    v.push((arr(vec![]), tails.iter().map(|t| format!("/-{t}")).chain(tails.iter().map(|t| format!("/0{t}"))).collect()));
+    v.push((Doc::Int(5), tails));
     // a failing token longer than u16::MAX bytes (label spans)
     let long_tok = "k".repeat(70_000);
     v.push((obj(vec![("k".to_string(), Doc::Int(1))]), vec![format!("/{long_tok}"), format!("/k/{long_tok}"), format!("/{long_tok}/x")]));
